@@ -63,7 +63,8 @@ def proof_status(pid, meta, b):
     obligations = []
     problems = []
     pf = meta["prop_file"]
-    cone = sorted(build.deps_of(pf))
+    pfs = [pf] + list(meta.get("extra_prop_files", []))
+    cone = sorted(set().union(*[build.deps_of(f) for f in pfs]))
     # translator obligations
     for g in meta.get("generators", []):
         err = b["gen"].get(g)
@@ -75,27 +76,28 @@ def proof_status(pid, meta, b):
         ok = build.vo_ok(f)
         if not ok:
             problems.append(f"{f} does not compile")
-    thms = build.theorems_in(pf)
-    ok_ass, ass, raw = (False, {}, "not built")
-    if build.vo_ok(pf):
-        ok_ass, ass, raw = build.print_assumptions(pf)
-        if not ok_ass:
-            problems.append(f"Print Assumptions of {pf} failed: {raw[-300:]}")
-    for t in thms:
-        ok = build.vo_ok(pf) and t in ass
-        bad = [a for a in ass.get(t, []) if a not in build.AXIOM_WHITELIST]
-        if bad:
-            problems.append(f"theorem {t} depends on non-whitelisted axioms {bad}")
-            ok = False
-        obligations.append({"kind": "theorem", "name": t, "ok": ok, "axioms": ass.get(t)})
-    if not thms:
-        problems.append(f"no theorem in {pf}")
+    for pf_ in pfs:
+        thms = build.theorems_in(pf_)
+        ok_ass, ass, raw = (False, {}, "not built")
+        if build.vo_ok(pf_):
+            ok_ass, ass, raw = build.print_assumptions(pf_)
+            if not ok_ass:
+                problems.append(f"Print Assumptions of {pf_} failed: {raw[-300:]}")
+        for t in thms:
+            ok = build.vo_ok(pf_) and t in ass
+            bad = [a for a in ass.get(t, []) if a not in build.AXIOM_WHITELIST]
+            if bad:
+                problems.append(f"theorem {t} depends on non-whitelisted axioms {bad}")
+                ok = False
+            obligations.append({"kind": "theorem", "name": t, "ok": ok, "axioms": ass.get(t)})
+        if not thms:
+            problems.append(f"no theorem in {pf_}")
     # supporting lemmas of the cone (counted, compiled == proved since no Admitted is allowed)
     nlem = 0
     for f in cone:
         if f != pf and (f.startswith("proofs/") or f.startswith("specs/")):
             nlem += len(build.theorems_in(f))
-    hits = build.grep_forbidden(build.deps_of(pf))
+    hits = build.grep_forbidden(cone)
     obligations.append({"kind": "audit", "name": "no Admitted/admit/Axiom/Parameter/... in the cone",
                         "ok": not hits})
     if hits:
